@@ -7,4 +7,6 @@ mkdir -p bin replays evidence
 (cd lean && lake build)
 cp /repo/go.sum harness/go.sum
 (cd harness && go build -tags verif -o ../bin/harness .)
+# race-detector build of the same harness (C25: the loaded child of the concurrent mode); takes minutes when the build cache is cold
+(cd harness && go build -race -tags verif -o ../bin/harness-race .)
 echo setup-ok
